@@ -15,9 +15,11 @@ THEOREMS = [
     "C02_perm",
     "C02_any_arrangement",
     "C02_add_refuses_mismatch",
+    "C02_weighted_sums_conserve",
+    "C02_moments_sum_to_data",
 ]
 CORR_OPS = ["gmm_estep:whole", "gmm_estep:per_block", "gmm_estep:fold_add", "gmm_estep:fold_iadd", "gmm_estep:fold_iadd_from_fresh", "gmm_estep:dask",
-            "gmm_estep:transform", "gmm_estep:single_vector", "gmm_estep:transform_rows", "stats_add:add", "stats_add:iadd"]
+            "gmm_estep:transform", "gmm_estep:conservation", "gmm_estep:single_vector", "gmm_estep:transform_rows", "stats_add:add", "stats_add:iadd"]
 RULE = ("a machine, a data set and a split of its rows into consecutive blocks (all 2^(n-1) compositions of small n, then random "
         "compositions) or an arbitrary row-to-block assignment; distinct = hash(machine, rows, split); non-trivial = >= 2 blocks and "
         ">= 2 components with responsibility mass > 1e-3")
@@ -159,6 +161,17 @@ def correspondence(ctx):
 
         cmp("gmm_estep:whole", whole, im["whole"])
         cmp("gmm_estep:per_block", per, im["per"])
+        # C02_moments_sum_to_data on the code: over the components the first / second order statistics add up to the column sums
+        # (of squares) of the data and the counts to the number of rows
+        if not isinstance(im["whole"], core.ImplError):
+            xf = np.asarray(sc["x"], dtype=np.float64)
+            iw = im["whole"]
+            scale1, scale2 = np.abs(xf).sum(axis=0) + 1e-300, (xf * xf).sum(axis=0) + 1e-300
+            ok = (np.all(np.abs(np.asarray(iw["px"], dtype=np.float64).sum(axis=0) - xf.sum(axis=0)) <= 1e-8 * scale1)
+                  and np.all(np.abs(np.asarray(iw["pxx"], dtype=np.float64).sum(axis=0) - (xf * xf).sum(axis=0)) <= 1e-8 * scale2)
+                  and abs(float(np.sum(iw["n"])) - len(xf)) <= 1e-8 * max(1, len(xf)))
+            if not ok:
+                bad.append({"op": "gmm_estep:conservation", "input": sc, "impl": iw})
         cmp("gmm_estep:fold_add", folded, im["fold_add"])
         cmp("gmm_estep:fold_iadd", folded, im["fold_iadd"])
         for ff in im["fold_fresh"]:
